@@ -40,7 +40,7 @@ from mpsa.match import (
 )
 from mpsa.report import Checker
 
-from .common import SERVER, build_cfg, make_fallible
+from .common import SERVER, build_cfg, find_unpack, make_fallible
 
 SERVERS = ('Server', 'AsyncServer')
 
@@ -727,18 +727,14 @@ def check_gather_pairing(ck: Checker, rid: str, s: Srv):
     cfg, sc = gather_cfg(ck, s)
     loop, getn, popn = gather_loop(cfg, sc, s)
     zname = getn.ast.targets[0].id if isinstance(getn.ast.targets[0], ast.Name) else None
-    unpack = None
-    for n in cfg.nodes:
-        if loop.id in n.loops and isinstance(n.ast, ast.Assign) and isinstance(n.ast.targets[0], ast.Tuple) and is_name(n.ast.value, zname):
-            unpack = n
+    unpack = find_unpack(cfg, loop.id, zname)
     ck.need(unpack is not None, f'{s.gather.key}: message is not unpacked into (uid, payload)')
-    elts = unpack.ast.targets[0].elts
     probs = []
-    if not (len(elts) == 2 and all(isinstance(e, ast.Name) for e in elts)):
+    if not (len(unpack.names) == 2 and all(unpack.names)):
         probs.append('message is not unpacked as `(uid, y)`')
         ck.ob(rid, s.gather, unpack.ast, False, probs[0])
         return
-    uid, y = elts[0].id, elts[1].id
+    uid, y = unpack.names
     popcall = _ledger_lookup(popn, sc, s)
     keyexpr = (popcall.args[0] if popcall.args else None) if isinstance(popcall, ast.Call) else popcall.slice
     if not (keyexpr is not None and is_name(keyexpr, uid)):
@@ -789,7 +785,7 @@ def check_gather_pairing(ck: Checker, rid: str, s: Srv):
             rd = reaching_defs(cfg, y, start=loop.id, cut_back_edges_to=loop.id).get(n.id, frozenset())
             for dd in rd:
                 da_ = cfg.nodes[dd].ast
-                if dd == unpack.id:
+                if dd in unpack.ids:
                     continue
                 v = getattr(da_, 'value', None)
                 if not (isinstance(da_, ast.Assign) and v is not None and names_in(v) <= {y}):
